@@ -121,3 +121,63 @@ def no_recursion(ctx):
                           'input (consecutive empty units), a hostile stream overflows the stack' % fs)
     ctx.ok('decoder-self-call-graph', '-', '%d functions reachable from %d decoder entry points (%s); %d SCCs, '
            '%d recursive' % (len(nodes), len(roots), ','.join(sorted(present)), len(comps), ncyc))
+
+
+# --------------------------------------------------------------------------- ALLOC-TAINT
+
+from lzlint.intervals import Intervals, INF, eval_lifted
+
+ALLOC_SINKS = {'Vec::with_capacity': 0, 'vec::from_elem': 1, 'Vec::resize': 1, 'Vec::reserve': 1,
+               'Vec::reserve_exact': 1, 'VecDeque::with_capacity': 0, 'String::with_capacity': 0,
+               'Vec::try_reserve': 1, 'Vec::try_reserve_exact': 1, 'alloc::alloc': 0, 'alloc::alloc_zeroed': 0,
+               'Box::new_uninit_slice': 0, 'Vec::resize_with': 1}
+ALLOC_LIMIT = 1 << 24   # elements; constants and type-bounded sizes must stay below this
+
+# function key -> reason: the declared dictionary is allowed by the property's own bound
+ALLOC_EXCEPTIONS = {
+    'LZDecoder::new': 'the dictionary size declared by the stream/caller: the property allows "the dictionary size the input declares"',
+}
+
+
+@rule('ALLOC-TAINT', ['C06'], floor=12, thorough_configs=('nostd-xzlzip',))
+def alloc_taint(ctx):
+    """Every allocation size reachable from the decoder entry points is a constant, bounded by the
+    type of a narrow header field, proportional to bytes actually held, the declared dictionary
+    size, or an input-derived wide integer that a dominating check bounds (interval analysis with
+    guard refinement across calls and struct fields)."""
+    F = ctx.facts
+    roots, present = decoder_entry_points(F)
+    if not roots:
+        return ctx.anchor_missing('public reader types')
+    reach = F.reachable_fns(roots)
+    iv = Intervals(F)
+    n = 0
+    cnt = {}
+    for p in sorted(reach):
+        f = F.by_path[p]
+        prov = None
+        for bi, t, c in f.calls():
+            idx = None
+            for nm, i in ALLOC_SINKS.items():
+                if c.is_(nm):
+                    idx = i
+            if idx is None or idx >= len(t['args']):
+                continue
+            prov = prov or Prov(f)
+            n += 1
+            size = prov.operand(t['args'][idx], 0, '%d:T' % bi)
+            base = '%s:%s' % (f.key if f.kind != 'closure' else f.npath, c.name)
+            cnt[base] = cnt.get(base, 0) + 1
+            key = base if cnt[base] == 1 else '%s#%d' % (base, cnt[base])
+            if f.key in ALLOC_EXCEPTIONS:
+                ctx.exception(key, f.loc(bi), ALLOC_EXCEPTIONS[f.key])
+                continue
+            r, where = eval_lifted(iv, f, bi, size, ALLOC_LIMIT)
+            if r.hi != INF and r.hi <= ALLOC_LIMIT:
+                ctx.ok(key, f.loc(bi), 'size %s in %r (bounded in %s)' % (expr_str(size)[:60], r, where), nontrivial=size[0] != 'const')
+            else:
+                ctx.violation(key, f.loc(bi), 'allocation of %s elements where the size derives from untrusted input without '
+                              'a dominating upper bound (interval %r): a tiny hostile stream forces a huge allocation / '
+                              'capacity-overflow panic; worst context: %s' % (expr_str(size)[:70], r, where))
+    if n == 0:
+        ctx.anchor_missing('allocation sites reachable from the decoders')
